@@ -154,6 +154,40 @@ def perm_cases(tier, shard, nshards):
                     i += 1
 
 
+def check_retry(case):
+    """a table with one refused leaf: the first encode raises; after the leaf is replaced in
+    place (same container objects) the table must encode, twice identically, and to the
+    same bytes as an equal table made of fresh objects; through a frame as well"""
+    import copy
+    del _KEEP[:]
+    table = case['v']
+    try:
+        encode.field_table(table)
+        first = 'accepted'
+    except Exception as e:
+        first = type(e).__name__
+    S.repair(table)
+    fresh = copy.deepcopy(table)
+    a = call('encode-after-failure', encode.field_table, table)
+    b = call('encode-after-failure', encode.field_table, table)
+    c = call('encode-fresh-copy', encode.field_table, fresh)
+    if a != b:
+        raise Violation('retry-nondeterministic', 'after a refused attempt (%s) two '
+                        'encodings of the repaired table differ' % first)
+    if a != c:
+        raise Violation('retry-differs-from-fresh', 'after a refused attempt (%s) the '
+                        'repaired table encodes differently from an equal fresh table'
+                        % first)
+    from pbt.lib import commands, header
+    h = header.ContentHeader(0, 1, commands.Basic.Properties(headers=table))
+    call('marshal-after-failure', frame.marshal, h, 1)
+    return ['first=' + first]
+
+
+def retry_cases(tier):
+    return st.fixed_dictionaries({'v': S.bad_tables()})
+
+
 # ---------------------------------------------------------------- frames
 
 def frame_snapshot(obj):
@@ -230,6 +264,10 @@ COMPONENTS = [
               nontrivial=table_nontrivial, classes=table_classes,
               budget={'quick': 24000, 'thorough': 640000},
               describe='random nested tables with a drawn permutation at every level'),
+    Component('retry', check_retry, strategy=retry_cases,
+              nontrivial=lambda c: True, budget={'quick': 3200, 'thorough': 64000},
+              describe='a table with one refused leaf (every kind of refusal) is encoded, '
+                       'repaired in place and encoded again'),
     Component('frames', check_frame, strategy=frame_cases,
               nontrivial=frame_nontrivial,
               classes=lambda c: ['kind=' + c['kind']],
